@@ -371,7 +371,7 @@ func intsTo(n int) []int {
 	return r
 }
 
-const ruleE2E = "two verified real BitcoinNodes sharing one TxManager (request timeout 1 h) over loopback TCP, each against its own scripted peer: a drawn script of inv announcements (1..3 txids each, new / already outstanding / already delivered) and tx deliveries (solicited or not) from either peer; oracle: a getdata goes to a peer for exactly the txids that were new when that peer announced them (one getdata entry per new txid, none for a txid outstanding at the other peer or already delivered), and every delivered transaction reaches the processor exactly once; non-trivial = a txid announced by both peers; distinct = the script"
+const ruleE2E = "two verified real BitcoinNodes sharing one TxManager (request timeout 1 h) over loopback TCP, each against its own scripted peer: a drawn script of inv announcements (1..3 txids each, new / already outstanding / already delivered) and tx deliveries (solicited or not) from either peer; in half of the cases everything the scripted peer writes is cut into pieces of 1..100 bytes over the first 600 bytes of each send (TCP segmentation at arbitrary offsets); oracle: a getdata goes to a peer for exactly the txids that were new when that peer announced them (one getdata entry per new txid, none for a txid outstanding at the other peer or already delivered), and every delivered transaction reaches the processor exactly once; non-trivial = a txid announced by both peers; distinct = the script"
 
 func TestProp_C06_e2e(t *testing.T) {
 	col := evid.For("C06", "e2e", ruleE2E)
@@ -384,8 +384,12 @@ func TestProp_C06_e2e(t *testing.T) {
 		runDone := make(chan error, 1)
 		go func() { runDone <- tm.Run(ctx) }()
 		var ss [2]*sess.Session
+		var fragment []int
+		if rapid.Bool().Draw(t, "fragmented") {
+			fragment = rapid.SliceOfN(rapid.SampledFrom(p2p.GenFragmentSizes), 1, 4).Draw(t, "pieces")
+		}
 		for i := range ss {
-			ss[i] = sess.Start(t, sess.Opts{TxManager: tm})
+			ss[i] = sess.Start(t, sess.Opts{TxManager: tm, Fragment: fragment})
 			defer ss[i].Finish(10 * time.Second)
 			ss[i].Ready(t)
 		}
